@@ -26,6 +26,13 @@ func checkC17(p *Prog, r *Report) {
 	rDet := r.Rule("determinism", "maps.Keys results are sorted before use, maps are not ranged directly, the first matching pattern wins")
 	rNL := r.Rule("parts-newline-terminated", "each converted file ends in a newline, appended by the per-file converter")
 	checkCtrlIGenerator(p, r, r.Rule("generator-is-the-conversion", "main's Ctrl+I generator returns Converter.From's payload and error and nothing else: nothing besides the conversion can make it fail, nothing stands in for it"))
+	/* The payload is the conversion of the files as they are now: a filter
+	returns what it rendered in this call, not something kept from an
+	earlier one (C16's buffer rule, under this property's "same on every
+	call while the files are unchanged — and only then" clause). */
+	if fp := p.Func(sffPkg, "", "FromPerl"); nil != fp {
+		checkResultFresh(r, r.Rule("converted-afresh", "a filter's result is rendered in the call which returns it, not taken from package-level state (a cache keyed by name, say)"), "", fp)
+	}
 	rPass := r.Rule("pass-through-and-order", "an unmatched single file is returned unchanged without error; sources are converted in argument order")
 
 	fd := p.Func(sffPkg, "Converter", "fromDirectory")
